@@ -41,6 +41,9 @@ func Main(ctx context.Context, osenv *rsyncos.Env, args []string, cfg *rsyncdcon
 	osenv.Logf("Main(osenv=%v, args=%q)", osenv, args)
 	pc := rsyncopts.NewContext(rsyncopts.NewOptionsWithGokrazyDefaults(osenv))
 	if err := pc.ParseArguments(osenv, args[1:]); err != nil {
+		if ee, ok := err.(*rsyncopts.ExitError); ok && ee.Code == 0 {
+			return nil, nil // help or version was printed
+		}
 		if pe, ok := err.(*rsyncopts.PoptError); ok &&
 			pe.Errno == rsyncopts.POPT_ERROR_BADOPT &&
 			strings.HasPrefix(pe.Error(), "--gokr.") {
